@@ -28,7 +28,8 @@ def main() -> int:
     for d in sorted((ROOT / "seeded").iterdir()):
         if not (d / "patch.diff").exists() or (sel and not any(d.name.startswith(s) for s in sel)):
             continue
-        prop = json.loads((d / "meta.json").read_text())["property"]
+        meta = json.loads((d / "meta.json").read_text())
+        prop, tier = meta["property"], meta.get("tier", "quick")   # a few seeds only show in the thorough scope
         wt = f"/tmp/selftest-{d.name}"
         run(["git", "-C", "/repo", "worktree", "remove", "--force", wt])
         r = run(["git", "-C", "/repo", "worktree", "add", "-q", wt, "HEAD"])
@@ -41,11 +42,11 @@ def main() -> int:
                 results[d.name] = {"status": "patch does not apply", "detail": a.stderr[-300:]}
                 continue
             t0 = time.time()
-            c = run([str(ROOT / "check"), prop, "--tier", "quick"], cwd=ROOT, env=dict(os.environ, VERIF_REPO=wt))
+            c = run([str(ROOT / "check"), prop, "--tier", tier], cwd=ROOT, env=dict(os.environ, VERIF_REPO=wt))
             viol = [ln for ln in c.stdout.splitlines() if ln.startswith("VIOLATION")]
             detail = [ln.strip() for ln in c.stdout.splitlines() if ln.startswith("  ")][:1]
             ok = c.returncode == 1 and bool(viol)
-            results[d.name] = {"property": prop, "status": "caught" if ok else f"NOT caught (exit {c.returncode})",
+            results[d.name] = {"property": prop, "tier": tier, "status": "caught" if ok else f"NOT caught (exit {c.returncode})",
                                "with_failing_input": ok and "no-failing-input-found" not in viol[0],
                                "first": (detail or viol or [""])[0][:200], "wall_s": round(time.time() - t0, 1)}
         finally:
